@@ -14,5 +14,22 @@ cd "$(dirname "$0")/.."
   echo
   cat notes/asbuilt.md
   if [ -f notes/seeded-matrix.md ]; then echo; cat notes/seeded-matrix.md; fi
+  echo
+  python3 - <<'PY'
+import json, os
+print("### 9.6 Seeded changes that were missed at first, and how the checks were strengthened\n")
+print("A seeded change that a check missed was never answered by loosening anything: the workload or the observation was widened until the change left a trace, and the widened check was re-run on the unchanged tree (silent) before being kept.\n")
+rows = []
+for sid in sorted(os.listdir("/verif/seeded")):
+    mp = f"/verif/seeded/{sid}/meta.json"
+    if not os.path.exists(mp): continue
+    m = json.load(open(mp))
+    d = m.get("detected_by", "")
+    if d.startswith("initially MISSED"):
+        rows.append((sid, d))
+for sid, d in rows:
+    print(f"* **{sid}** - {d}")
+print(f"\n{len(rows)} of {len([s for s in os.listdir('/verif/seeded') if os.path.exists(f'/verif/seeded/{s}/meta.json')])} seeded changes were missed at first; all are detected now (see 9.5).")
+PY
 } > DESIGN.md
 wc -l DESIGN.md
